@@ -12,11 +12,11 @@ PROPS = {
                          {"harness": "history", "args": ["--what", "RectClip", "--depth", 5]},
                          {"harness": "history", "args": ["--what", "independence"]}],
         },
-        "rule": "every sequence of API calls of length <= d over the operation alphabet of each object kind (Clipper64: 14 ops, ClipperD: 10, ClipperOffset: 12, RectClip64/RectClipLines64: 8) whose last call is an Execute; "
+        "rule": "every sequence of API calls of length <= d over the operation alphabet of each object kind (Clipper64: 15 ops, ClipperD: 11, ClipperOffset: 12, RectClip64/RectClipLines64: 8) whose last call is an Execute; "
                 "stateless: each history is replayed on a fresh real object; the result of the last call is compared bit for bit with a freshly constructed object given the abstract state (adds since the last Clear, current options); "
                 "plus every ordered selection of 2-3 of 8 far-apart offset groups x delta +-10 compared with each group/path offset alone; non-trivial = the history is longer than / different from its minimal call list",
         "level_text": "All API-call histories up to the depth bound are executed on the real objects and compared with a fresh object driven by the abstract model (list of added paths + options); no state hashing, so hidden fields cannot be merged away.",
-        "assumptions": ["operation arguments are fixed path sets chosen so that different abstract states give different results", "history depth bounded (quick 4, thorough 6)",
+        "assumptions": ["operation arguments are fixed path sets chosen so that different abstract states give different results", "the output containers handed to Execute are reused across the whole history (fresh ones for the reference object)", "history depth bounded (quick 4, thorough 6)",
                         "documented precondition kept out of the alphabet: the same ReuseableDataContainer64 added twice between Clears (probed separately, known finding D12)"],
     },
 }
